@@ -130,13 +130,38 @@ def search_flows():
     return wit[:3], cases
 
 
-SEARCHES = {'get_sink_tag_by_rules': search_sink_tag, 'find_flows': search_flows, 'apply_record_write_sink_rules': search_appliers, 'apply_field_write_sink_rules': search_appliers,
+def search_isolation():
+    """the tag readers must read the CURRENT environment: a state tainted in one environment has tag 0 in a fresh one"""
+    from lian.taint.taint_structs import TaintEnv
+    wit, cases = [], 0
+    g = nx.DiGraph()
+    sym = SFGNode(node_type=SFG_NODE_KIND.SYMBOL, def_stmt_id=1, node_id=100, name='a', index=1)
+    st1 = SFGNode(node_type=SFG_NODE_KIND.STATE, def_stmt_id=1, node_id=200, name='s', index=2)
+    st2 = SFGNode(node_type=SFG_NODE_KIND.STATE, def_stmt_id=1, node_id=201, name='t', index=3)
+    g.add_edge(sym, st1, weight=SFGEdge(edge_type=SFG_EDGE_KIND.SYMBOL_STATE, stmt_id=1))
+    g.add_edge(st1, st2, weight=SFGEdge(edge_type=SFG_EDGE_KIND.STATE_INCLUSION, stmt_id=1))
+    ta = object.__new__(TaintAnalysis)
+    ta.sfg = g
+    for fn, node in (('get_state_with_inclusion_tag', st1), ('get_symbol_with_states_tag', sym)):
+        cases += 1
+        ta.taint_manager = TaintEnv()
+        ta.taint_manager.states_to_bv = {201: 2}
+        first = getattr(ta, fn)(node)
+        ta.taint_manager = TaintEnv()
+        second = getattr(ta, fn)(node)
+        if first != 2 or second != 0:
+            wit.append(dict(function='TaintAnalysis.' + fn, input='state 201 tainted (tag 2) in a first environment, then a fresh TaintEnv', observed=f'{fn}: first environment {first}, fresh environment {second} (must be 2 and 0)',
+                            clauses=['isolation', 'a-tag-bit-vector']))
+    return wit, cases
+
+
+SEARCHES = {'get_state_with_inclusion_tag': search_isolation, 'get_symbol_with_states_tag': search_isolation, 'get_sink_tag_by_rules': search_sink_tag, 'find_flows': search_flows, 'apply_record_write_sink_rules': search_appliers, 'apply_field_write_sink_rules': search_appliers,
             'should_apply_call_stmt_sink_rules': search_appliers}
 
 
 def search(target, models):
     fn = target.split('.')[-1]
-    order = [SEARCHES[fn]] if fn in SEARCHES else [search_sink_tag, search_appliers, search_flows]
+    order = [SEARCHES[fn]] if fn in SEARCHES else [search_sink_tag, search_appliers, search_flows, search_isolation]
     wit, cases = [], 0
     for f in order:
         w, c = f()
